@@ -173,6 +173,17 @@ def make_read(op, target, is_ds, paths=None, prepared=None):
         fmt = fmts[op[1] % len(fmts)]
         kw = {"operation": "add"} if fmt == "patch" else {}
         return "serialize:" + fmt, (lambda: target.serialize(format=fmt, **kw)), fmt
+    if name == "serialize-member":
+        # one member graph of the dataset (or the graph itself) written in a triple syntax, with the options a serializer takes
+        # (longturtle canon=True re-parses a canonical form into a scratch graph; nothing of that may land in the shared store)
+        fmt = GFMT[op[1] % len(GFMT)]
+        if is_ds:
+            members = [target.default_context] + sorted((g for g in target.contexts() if g.identifier != target.default_context.identifier), key=lambda g: repr(g.identifier))
+            member = members[op[2] % len(members)]
+        else:
+            member = target
+        kw = {"canon": True} if (fmt == "longturtle" and op[3]) else {}
+        return "serialize-member:" + fmt + (":canon" if kw else ""), (lambda: member.serialize(format=fmt, **kw)), fmt
     if name == "query":
         q = QUERIES[op[1] % len(QUERIES)]
         def run_q():
@@ -288,7 +299,8 @@ def cases(draw, tier):
     kind = draw(st.sampled_from(["graph", "dataset", "dataset", "dataset-union", "cg"]))
     op = st.one_of(st.tuples(st.just("serialize"), st.integers(0, 7)), st.tuples(st.just("query"), st.integers(0, len(QUERIES) - 1)),
                    st.tuples(st.just("api"), st.integers(0, 33)), st.tuples(st.just("api"), st.integers(0, 33)),
-                   st.tuples(st.just("prepared"), st.integers(0, len(PREPARED) - 1))).map(list)
+                   st.tuples(st.just("prepared"), st.integers(0, len(PREPARED) - 1)),
+                   st.tuples(st.just("serialize-member"), st.sampled_from([0, 1, 2, 2, 2, 3, 4, 5, 6, 7]), st.integers(0, 3), st.booleans())).map(list)
     return {"kind": kind, "store": draw(st.sampled_from(["memory", "simple"])), "graphs": dataset_graphs(draw),
             "ops": draw(sized_lists(op, 3, 10))}
 
